@@ -100,12 +100,20 @@ Record cfg := mkCfg {
   c_reserve_hdr : bool;     (* group / dataset headers allocated at max_hdr (fix 9ee6197); false = exact size *)
   c_reserve_link : bool;    (* link object headers allocated at max_hdr (notes/fixes/reserve-link-headers) *)
   c_extend_close : bool;    (* Close extends the file to the allocator's end of file (fix 72cccd1) *)
-  c_reserve_v0 : bool }.    (* superblock v0 root structures reserved in the allocator (fix 3905a26) *)
+  c_reserve_v0 : bool;      (* superblock v0 root structures reserved in the allocator (fix 3905a26) *)
+  c_precheck : bool;        (* creations / hard links check linkToParent's conditions before allocating or writing
+                               (notes/fixes/check-link-before-allocating) *)
+  c_attrinfo : bool }.      (* transitionToDenseAttributes checks that the attribute info message fits before it
+                               allocates the dense storage (notes/fixes/attrinfo-check-before-dense-write) *)
 
-Definition cfg_fixed := mkCfg true true true true.
-Definition cfg_repo := mkCfg true false true true.          (* /repo HEAD without the link-header patch *)
-Definition cfg_exact_hdr := mkCfg false false true true.    (* before 9ee6197 *)
-Definition cfg_no_extend := mkCfg true true false true.     (* before 72cccd1 *)
+(* the configurations the theorems are about: all extent-related repairs in, the two error-path patches
+   present or not *)
+Definition gcfg (pre ai : bool) := mkCfg true true true true pre ai.
+Definition cfg_fixed := gcfg true true.
+Definition cfg_head := gcfg false false.                          (* /repo at aca2fa7 *)
+Definition cfg_repo := mkCfg true false true true false false.     (* before 0d24a11 (link object headers at exact size) *)
+Definition cfg_exact_hdr := mkCfg false false true true false false.   (* before 9ee6197 *)
+Definition cfg_no_extend := mkCfg true true false true false false.    (* before 72cccd1 *)
 
 (* fixed-size kinds: allocation size = every later rewrite bound *)
 Definition sized (c : cfg) (k : kind) : option N :=
@@ -305,6 +313,10 @@ Definition parent_known (s : state) (p : oid) : bool :=
                                    | Some po => match o_kind po with OGroup => true | _ => false end
                                    | None => false end).
 
+(* checkLinkable: the outcome linkToParent would have, computed without writing *)
+Definition link_refused (s : state) (p : oid) (nl : N) (dup : bool) : bool :=
+  c_precheck (conf s) && negb (snd (fst (link_to_parent s p nl dup))).
+
 Definition new_obj (x : oid) (k : okind) (m : list msg) (poff rank : N) : obj := mkObj x k m poff rank 0 0 0.
 
 Definition seq_link (pre : list cmd) (lk : compiled) (nb : obj) : compiled :=
@@ -316,7 +328,7 @@ Definition dense_writes (x : oid) (nrec : N) : list cmd :=
    CWrite x KBt2Leaf 0 (leaf_size nrec); CWrite x KBt2Hdr 0 bt2_hdr_size].
 
 (* transitionToDenseAttributes *)
-Definition transition (ob : obj) (hfit again : bool) : compiled :=
+Definition transition (c : cfg) (ob : obj) (hfit again : bool) : compiled :=
   let x := o_id ob in
   let k := hdr_kind ob in
   if negb hfit then reject
@@ -324,6 +336,7 @@ Definition transition (ob : obj) (hfit again : bool) : compiled :=
     let nattr := count_type M_ATTR (o_msgs ob) in
     let rest := drop_type M_ATTR (o_msgs ob) in
     let tmp := rest ++ [(M_ATTRINFO, attrinfo_len)] in
+    if c_attrinfo c && (max_hdr <? hdr_size tmp) then reject else
     let pre := [CAdvance x k (hdr_size tmp);
                 CAlloc x KFHeapHdr fh_hdr_size; CAlloc x KFHeapBlk fh_blk_size;
                 CWrite x KFHeapHdr 0 fh_hdr_size; CWrite x KFHeapBlk 0 fh_blk_size;
@@ -336,7 +349,7 @@ Definition transition (ob : obj) (hfit again : bool) : compiled :=
                       fun l => set_obj l (with_msgs ob tmp (nattr + 1)))
          end.
 
-Definition attr_set (ob : obj) (idx : option nat) (alen : N) (hfit : bool) : compiled :=
+Definition attr_set (c : cfg) (ob : obj) (idx : option nat) (alen : N) (hfit : bool) : compiled :=
   let x := o_id ob in
   let k := hdr_kind ob in
   let m := o_msgs ob in
@@ -357,7 +370,7 @@ Definition attr_set (ob : obj) (idx : option nat) (alen : N) (hfit : bool) : com
          | Some w => ([w], true, fun l => set_obj l (with_msgs ob m' 0))
          end)
     | None =>
-        if max_chunk <? hdr_chunk m + (4 + alen) then transition ob hfit true     (* "object header full" *)
+        if max_chunk <? hdr_chunk m + (4 + alen) then transition c ob hfit true     (* "object header full" *)
         else match hdr_write x k (m ++ [(M_ATTR, alen)]) with
              | None => reject
              | Some w => ([w], true, fun l => set_obj l (with_msgs ob (m ++ [(M_ATTR, alen)]) 0))
@@ -365,7 +378,7 @@ Definition attr_set (ob : obj) (idx : option nat) (alen : N) (hfit : bool) : com
     end
   else match idx with
        | Some _ => reject                 (* DenseAttributeWriter.AddAttribute: "already exists" *)
-       | None => transition ob hfit false
+       | None => transition c ob hfit false
        end.
 
 Definition attr_del (ob : obj) (idx : option nat) : compiled :=
@@ -400,6 +413,7 @@ Definition compile (s : state) (o : op) : compiled :=
   | OpReject | OpClose | OpReopen => reject
   | OpMkGroup p nl dup =>
       if negb (parent_known s p) then reject
+      else if link_refused s p nl dup then reject
       else
         let m := [(M_SYMTAB, 16)] in
         match hdr_write x KHeader m with
@@ -413,6 +427,7 @@ Definition compile (s : state) (o : op) : compiled :=
         end
   | OpMkContig p nl dup ldt rank dsize =>
       if dsize =? 0 then reject
+      else if link_refused s p nl dup then reject
       else
         let m := [(M_DATATYPE, ldt); (M_DATASPACE, 8 + 8 * rank); (M_LAYOUT, 18)] in
         match hdr_write x KHeader m with
@@ -428,6 +443,7 @@ Definition compile (s : state) (o : op) : compiled :=
       match hdr_write x KHeader m with
       | None => reject                                             (* calculateObjectHeaderSize before any allocation *)
       | Some w =>
+          if link_refused s p nl dup then reject else
           seq_link [CAlloc x KHeader (hdr_alloc c KHeader m); w]
                    (link_to_parent s p nl dup)
                    (new_obj x OChunked m (hdr_prefix + (4 + ldt) + (4 + lds) + 4 + 3) rank)
@@ -439,6 +455,7 @@ Definition compile (s : state) (o : op) : compiled :=
         match hdr_write x KLinkHdr m with
         | None => reject
         | Some w =>
+            if link_refused s p nl dup then reject else
             seq_link [CAlloc x KLinkHdr (hdr_alloc c KLinkHdr m); w]
                      (link_to_parent s p nl dup) (new_obj x OLink m 0 0)
         end
@@ -477,7 +494,7 @@ Definition compile (s : state) (o : op) : compiled :=
   | OpAttrSet y idx alen hfit =>
       match get_obj (objs s) y with
       | None => reject
-      | Some ob => match o_kind ob with OLink => reject | _ => attr_set ob idx alen hfit end
+      | Some ob => match o_kind ob with OLink => reject | _ => attr_set c ob idx alen hfit end
       end
   | OpAttrDel y idx =>
       match get_obj (objs s) y with
@@ -490,6 +507,7 @@ Definition compile (s : state) (o : op) : compiled :=
       else match get_obj (objs s) tgt with
       | None => reject
       | Some tb =>
+          if link_refused s p nl dup then reject else
           let k := hdr_kind tb in
           let m := o_msgs tb in
           let m' := if has_type M_REFCOUNT m then Some m
